@@ -3,7 +3,7 @@
 #include <zlib.h>
 #include <ctype.h>
 
-const int gq_alts[GQ__N] = { 6, 8, 2, 3, 5, 5, 4, 8, 3, 5 };
+const int gq_alts[GQ__N] = { 6, 8, 2, 3, 5, 5, 4, 8, 4, 5 };
 int gs_alts[GS__N] = { 2, 6, 3, 5, 5, 5 };      /* GS_STATUS has a 7th alternative (interim 103), switched on by the C02 enumeration only: see KF-INTERIM-1XX */
 
 static const char *const METHODS[] = { "GET", "POST", "HEAD", "PUT", "DELETE", "OPTIONS" };
@@ -162,6 +162,11 @@ void gx_build(const int *q, const int *s, int ord, int last, gx_msg *t, hx_buf *
             snprintf(body, sizeof body, "--BND\r\nContent-Disposition: form-data; name=\"f1\"\r\n\r\nv%d\r\n--BND--\r\n", ord);
             hb_puts(req, "Content-Type: multipart/form-data; boundary=BND\r\n"); addh(t->reqh, &t->nreqh, "Content-Type", "multipart/form-data; boundary=BND", NULL);
             t->nbparams = 1; strcpy(t->bparams[0].k, "f1"); snprintf(t->bparams[0].v, sizeof t->bparams[0].v, "v%d", ord);
+        } else if (ct == 3) {
+            /* quoted-string escapes in the field name: a backslash at the end (written \\), an escaped quote inside */
+            snprintf(body, sizeof body, "--BND\r\nContent-Disposition: form-data; name=\"dir\\\\\"\r\n\r\nv%d\r\n--BND\r\nContent-Disposition: form-data; name=\"a\\\"b\"\r\n\r\nw\r\n--BND--\r\n", ord);
+            hb_puts(req, "Content-Type: multipart/form-data; boundary=BND\r\n"); addh(t->reqh, &t->nreqh, "Content-Type", "multipart/form-data; boundary=BND", NULL);
+            t->nbparams = 2; strcpy(t->bparams[0].k, "dir\\"); snprintf(t->bparams[0].v, sizeof t->bparams[0].v, "v%d", ord); strcpy(t->bparams[1].k, "a\"b"); strcpy(t->bparams[1].v, "w");
         } else snprintf(body, sizeof body, "abc%d-body", ord);
         size_t bl = strlen(body);
         hb_put(&t->reqbody, body, bl);
